@@ -36,7 +36,7 @@ BASE_STYLES = ["import_mod", "from_name", "import_mod_as", "from_name_as"]
 
 @st.composite
 def cases(draw):
-    action = draw(st.sampled_from(["move_global", "move_global", "move_module", "to_package", "rename_module", "move_method", "move_leaf_to_root", "move_leaf_to_pkg2"]))
+    action = draw(st.sampled_from(["move_global", "move_global", "move_module", "to_package", "rename_module", "move_method", "move_leaf_to_root", "move_leaf_to_pkg2", "rename_deep_module", "leaf_to_package"]))
     return {
         "action": action,
         "element": draw(st.sampled_from(["function", "class", "variable"])),
@@ -50,6 +50,8 @@ def cases(draw):
         "sibling_named_like_dest": draw(st.booleans()),
         # one client already imports a module whose dotted name merely starts with the destination's (dstx / pkg.subx)
         "lookalike_import": draw(st.booleans()),
+        # the module that moves / becomes a package itself imports a sibling relatively, naming the package ("from . import sub")
+        "leaf_rel": draw(st.sampled_from(["none", "from_dot_import_module", "from_dot_import_module"])),
         "relative_in_pkg": draw(st.booleans()),
         "method_other_module": draw(st.integers(0, 3)) == 0,
         "method_uses_global": draw(st.booleans()),
@@ -100,12 +102,14 @@ def render(case):
     files["pkg/__init__.py"] = ""
     files["pkg2/__init__.py"] = ""
     files["pkg/leaf.py"] = "def leaf_fn():\n    return 7\nLEAF = 3\n"
+    if case.get("leaf_rel", "none") != "none":
+        files["pkg/leaf.py"] = "from . import sub\nfrom .inner import deep\ndef leaf_fn():\n    return 7 + sub.sub_own() * 0 + deep.deep_own() * 0\nLEAF = 3\n"
     files["pkg/sub.py"] = "def sub_own():\n    return 2\n"
     files["pkg/inner/__init__.py"] = ""
     files["pkg/inner/deep.py"] = "def deep_own():\n    return 3\n"
     files["pkg3/__init__.py"] = ""
     files["pkg3/leaf.py"] = "OTHER = 44\n"  # a different module with the moving module's base name
-    mains = ["import src\nimport dst\nimport pkg.sub\nimport pkg.leaf\nprint(src.other(), dst.dst_own(), pkg.sub.sub_own())\n"]
+    mains = ["import src\nimport dst\nimport pkg.sub\nimport pkg.leaf\nprint(src.other(), dst.dst_own(), pkg.sub.sub_own())\nimport pkg.inner.deep\nfrom pkg.inner import deep as dp\nprint(pkg.inner.deep.deep_own(), dp.deep_own())\n"]
     if case["src_uses_element"] and not case["uses_src_global"]:
         mains.append("print(src.src_user())\n")
     # clients of the element
@@ -234,6 +238,10 @@ def evaluate(case, env):
                 changes = ModuleToPackage(project, project.get_file("src.py")).get_changes()
             elif a == "rename_module":
                 changes = Rename(project, project.get_file("src.py")).get_changes("renamed_src")
+            elif a == "rename_deep_module":
+                changes = Rename(project, project.get_file("pkg/inner/deep.py")).get_changes("deeper")
+            elif a == "leaf_to_package":
+                changes = ModuleToPackage(project, project.get_file("pkg/leaf.py")).get_changes()
             else:
                 mm = files["mm.py"]
                 off = mm.index("meth")
